@@ -150,7 +150,7 @@ Qed.
 Lemma step_OMin_root : forall fuel N cfg d skip tape,
   fst (step fuel N cfg d (OMin None None skip tape)) =
   fst (expand_min fuel N cfg d None None skip tape).
-Proof. intros. reflexivity. Qed.
+Proof. intros fuel N cfg d skip tape. reflexivity. Qed.
 
 (* every minimal trap space has an expanded node: enough for MinFound *)
 Lemma MinFound_of_nodes : forall N d, SWF N d -> TrapNodes N d -> EdgeStrict d ->
@@ -456,3 +456,805 @@ Proof.
   apply LE_inv_close_min; [exact H0|].
   rewrite n_space_upd_flag by constructor. apply (Hmin _ (or_introl eq_refl)).
 Qed.
+
+(* ---------- skip_remaining ---------- *)
+Definition QL (N : net) (d : sd) : Prop :=
+  SWF N d /\ TrapNodes N d /\ NoStubEdges d /\ LeafOK N d.
+
+Lemma QL_swf : forall N d, QL N d -> SWF N d.
+Proof. intros N d H. apply H. Qed.
+
+Lemma QL_rootmark : forall N d m, QL N d -> min_trap N m ->
+  QL N (mark_expanded (fst (ensure_node N d None m)) (snd (ensure_node N d None m))).
+Proof.
+  intros N d m (Hswf & Htn & Hnse & Hl) Hmt.
+  pose proof (min_trap_length N m Hmt) as Hm.
+  destruct (ensure_root_spec N d m Hswf Hm) as (S1 & S2 & S3 & S4).
+  assert (Htn1 : TrapNodes N (fst (ensure_node N d None m))).
+  { apply (proj1 (prim_closed_trap_TrapNodes N)); try assumption.
+    - apply min_trap_trap. exact Hmt.
+    - intros p Hp. discriminate Hp. }
+  pose proof (sd_edges_ensure_root N d m) as Hed.
+  pose proof (ensure_node_old N d None m) as Hold.
+  pose proof (ensure_node_new N d None m) as Hnew.
+  destruct (ensure_node N d None m) as [d1 c]. simpl in S1, S2, S3, S4, Htn1, Hed, Hold, Hnew |- *.
+  assert (Hn1 : NoStubEdges d1).
+  { intros e Hin. rewrite Hed in Hin.
+    destruct S2 as (_ & _ & S5 & _). apply S5; [apply (swf_edges N d Hswf e Hin)|].
+    apply Hnse. exact Hin. }
+  split; [unfold mark_expanded; apply upd_flag_SWF; [constructor|exact S1]|].
+  split.
+  { unfold mark_expanded. apply TrapNodes_spaces. rewrite spaces_upd_flag by constructor.
+    apply TrapNodes_spaces. exact Htn1. }
+  split; [unfold mark_expanded; apply NoStubEdges_upd; [constructor|exact Hn1]|].
+  intros j _ Hmin. rewrite n_space_mark_expanded.
+  destruct (Nat.eq_dec j c) as [Heq|Hjc].
+  - subst j. rewrite S4, (min_trap_percolate N m Hmt). exact Hmt.
+  - apply is_minimal_iff in Hmin. destruct Hmin as [Ho He]. unfold mark_expanded in Ho, He.
+    rewrite (out_edges_same_edges d1 _ j (sd_edges_upd_node _ _ _)) in Ho.
+    rewrite upd_flag_get_other in He by exact Hjc.
+    rewrite (out_edges_same_edges d d1 j Hed) in Ho.
+    destruct (lt_dec j (size d)) as [Hjd|Hjd].
+    + destruct (Hold j Hjd) as (E1 & E2 & _). rewrite E1. apply Hl; [exact Hjd|].
+      apply is_minimal_iff. split; [exact Ho|]. rewrite <- E2. exact He.
+    + exfalso. destruct (lt_dec j (size d1)) as [Hj1|Hj1].
+      * destruct (Hnew j) as [Hf _]; [lia|exact Hj1|]. congruence.
+      * rewrite get_beyond in He by lia. discriminate He.
+Qed.
+
+Lemma skip_edges_has_edge : forall traps d p c m, In (c, m) traps ->
+  subspace m (n_space (get d p)) = true ->
+  exists c', has_edge (skip_edges d p traps) p c' = true.
+Proof.
+  induction traps as [|[mid m0] r IH]; intros d p c m Hin Hsub; [contradiction|]. simpl.
+  destruct (subspace m0 (n_space (get d p))) eqn:Es.
+  - exists mid. eapply has_edge_extends; [apply skip_edges_extends|].
+    apply has_edge_true. destruct (edge_added_has d p mid m0) as (e & H1 & H2 & H3).
+    exists e. rewrite sd_edges_ensure_edge. auto.
+  - destruct Hin as [Heq|Hin]; [injection Heq as Hc Hm; subst; congruence|].
+    eapply IH; eassumption.
+Qed.
+
+Lemma LE_skip_edges : forall N i traps d, LE_inv N i d -> traps_ok N d traps ->
+  traps_exp d traps -> LE_inv N i (skip_edges d i traps).
+Proof.
+  intros N i traps d H Hok Hex. apply (C_skip_edges N i (LE_inv N i)); try assumption.
+  intros d1 c m H0 Hc Hm Hpm _ _. apply LE_inv_edge; assumption.
+Qed.
+
+Lemma QL_skip1 : forall N d i traps, QL N d -> i < size d -> n_exp (get d i) = false ->
+  traps_ok N d traps -> traps_exp d traps ->
+  (forall M, min_trap N M -> exists c, In (c, M) traps) ->
+  QL N (upd_node (mark_expanded (skip_edges (upd_node d i clear_attr) i traps) i) i
+                 (fun y => set_skip y true)).
+Proof.
+  intros N d i traps (Hswf & Htn & Hnse & Hl) Hi Hex Hok Hte Hall.
+  assert (Hle : LE_inv N i (skip_edges (upd_node d i clear_attr) i traps)).
+  { apply LE_skip_edges.
+    - apply LE_inv_start; assumption.
+    - eapply traps_ok_extends; [|exact Hok]. apply upd_flag_extends. constructor.
+    - eapply traps_exp_extends; [|exact Hok|exact Hte]. apply upd_flag_extends. constructor. }
+  destruct (NSE_inv_close_skip N i _ (proj1 Hle)) as [C1 C2].
+  split; [exact C1|]. split; [|split; [exact C2|]].
+  - apply TrapNodes_spaces. rewrite spaces_upd_flag by constructor.
+    rewrite spaces_mark_expanded, spaces_skip_edges, spaces_upd_flag by constructor.
+    apply TrapNodes_spaces. exact Htn.
+  - apply LE_inv_close_skip; [exact Hle|].
+    destruct (min_trap_exists N _ (TrapNodes_get N d i Htn Hi)) as (M & HM & Hsub).
+    destruct (Hall M HM) as [c Hc].
+    destruct (skip_edges_has_edge traps (upd_node d i clear_attr) i c M Hc) as [c' Hc'].
+    { rewrite n_space_upd_flag by constructor. exact Hsub. }
+    eapply has_edge_out_nonempty. exact Hc'.
+Qed.
+
+Lemma QL_skip_all : forall N traps, (forall M, min_trap N M -> exists c, In (c, M) traps) ->
+  forall ids d count,
+  QL N d -> traps_ok N d traps -> traps_exp d traps -> (forall i, In i ids -> i < size d) ->
+  QL N (fst (skip_all d ids traps count)).
+Proof.
+  intros N traps Hall. induction ids as [|i r IH]; intros d count Hq Hok Hex Hv; simpl;
+    [exact Hq|].
+  assert (Hr : forall j, In j r -> j < size d) by (intros j Hin; apply Hv; right; exact Hin).
+  assert (Hi : i < size d) by (apply Hv; left; reflexivity).
+  destruct (n_exp (get d i)) eqn:Ei; [apply IH; assumption|].
+  assert (He : extends d (upd_node (mark_expanded
+                 (skip_edges (upd_node d i clear_attr) i traps) i) i
+                 (fun y => set_skip y true))).
+  { apply extends_trans with (d2 := upd_node d i clear_attr);
+      [apply upd_flag_extends; constructor|].
+    eapply extends_trans; [apply skip_edges_extends|].
+    eapply extends_trans; [apply mark_expanded_extends|].
+    apply upd_flag_extends. constructor. }
+  apply IH.
+  - apply QL_skip1; assumption.
+  - eapply traps_ok_extends; [exact He|exact Hok].
+  - eapply traps_exp_extends; [exact He|exact Hok|exact Hex].
+  - intros j Hin. eapply extends_lt; [exact He|apply Hr; exact Hin].
+Qed.
+
+(* the (id, trap) list built by ensure_roots mentions every element of the tape *)
+Lemma ensure_roots_complete : forall N mins d acc m,
+  (In m mins \/ exists c, In (c, m) acc) ->
+  exists c, In (c, m) (snd (ensure_roots N d mins acc)).
+Proof.
+  intros N. induction mins as [|m0 r IH]; intros d acc m H; simpl.
+  - destruct H as [[]|[c Hc]]. exists c. rewrite <- in_rev. exact Hc.
+  - destruct (ensure_node N d None m0) as [d1 c0]. apply IH.
+    destruct H as [[Heq|Hin]|[c Hc]].
+    + subst m0. right. exists c0. left. reflexivity.
+    + left. exact Hin.
+    + right. exists c. right. exact Hc.
+Qed.
+
+Lemma root_tape_all : forall N d tape, SWF N d ->
+  n_space (get d 0) = percolate_b N (top_space (nvars N)) ->
+  perm_of tape (min_traps_b N (n_space (get d 0))) = true ->
+  forall M, min_trap N M -> In M tape.
+Proof.
+  intros N d tape Hswf Hroot Hp M HM. eapply perm_of_In_rev; [exact Hp|].
+  apply min_traps_b_spec.
+  - apply (swf_len N d Hswf). apply get_In. apply (swf_size N d Hswf).
+  - split; [exact HM|]. rewrite Hroot. apply min_trap_in_root. exact HM.
+Qed.
+
+Lemma skip_remaining_QL : forall N d tape, QL N d ->
+  n_space (get d 0) = percolate_b N (top_space (nvars N)) ->
+  QL N (fst (skip_remaining N d tape)).
+Proof.
+  intros N d tape Hq Hroot. unfold skip_remaining.
+  destruct (negb (perm_of tape (min_traps_b N (n_space (get d 0))))) eqn:Ep; [exact Hq|].
+  pose proof (QL_swf N d Hq) as Hswf.
+  assert (Hmin : forall m, In m tape -> min_trap N m).
+  { intros m Hin. eapply (tape_min_traps N (n_space (get d 0)) tape); [|exact Ep|exact Hin].
+    apply (swf_len N d Hswf). apply get_In. apply (swf_size N d Hswf). }
+  assert (Hnil1 : traps_ok N d []) by (intros c m []).
+  assert (Hnil2 : traps_exp d []) by (intros c m []).
+  destruct (S_ensure_roots N (QL N) (QL_swf N) (QL_rootmark N) tape d [] Hq Hmin Hnil1 Hnil2)
+    as (Hq1 & Hok1 & Hex1).
+  pose proof (ensure_roots_complete N tape d []) as Hcomp.
+  destruct (ensure_roots N d tape []) as [d1 traps]. simpl in Hq1, Hok1, Hex1, Hcomp.
+  assert (Hall : forall M, min_trap N M -> exists c, In (c, M) traps).
+  { intros M HM. apply Hcomp. left. apply negb_false_iff in Ep.
+    eapply root_tape_all; eassumption. }
+  assert (Hv : forall i, In i (seq 0 (size d1)) -> i < size d1).
+  { intros i Hin. apply in_seq in Hin. lia. }
+  pose proof (QL_skip_all N traps Hall (seq 0 (size d1)) d1 0 Hq1 Hok1 Hex1 Hv) as Hq2.
+  destruct (skip_all d1 (seq 0 (size d1)) traps 0) as [d2 k]. exact Hq2.
+Qed.
+
+(* ---------- the minimal-space expansion, skip nodes included ---------- *)
+Definition QM (N : net) (d : sd) : Prop :=
+  SWF N d /\ TrapNodes N d /\ NoStubEdges d /\ EdgeStrict d /\ LeafOK N d.
+
+Lemma QM_swf : forall N d, QM N d -> SWF N d.
+Proof. intros N d H. apply H. Qed.
+
+Lemma QM_expand : forall N cfg d i, 1 <= max_motifs cfg -> QM N d ->
+  QM N (fst (expand_one N cfg d i)).
+Proof.
+  intros N cfg d i Hmm (Hswf & Htn & Hnse & Hes & Hl).
+  split; [apply (expand_one_transfer N (SWF N) (prim_closed_SWF N)); exact Hswf|].
+  split; [apply (expand_one_transfer_trap N (TrapNodes N) (prim_closed_trap_TrapNodes N));
+          assumption|].
+  split; [apply expand_one_NSE; assumption|].
+  split; [apply expand_one_ES; assumption|].
+  apply expand_one_LeafOK; assumption.
+Qed.
+
+Lemma QM_msn : forall N d s all_min, QM N d -> s < size d ->
+  (forall m, In m all_min -> min_trap N m) ->
+  (n_exp (get d s) = false -> ~ In (n_space (get d s)) all_min) ->
+  (n_exp (get d s) = false ->
+     exists m, In m all_min /\ subspace m (n_space (get d s)) = true) ->
+  QM N (make_skip_node N d s all_min).
+Proof.
+  intros N d s all_min (Hswf & Htn & Hnse & Hes & Hl) Hs Hmin Hself Hex.
+  destruct (make_skip_node_NSE N d s all_min Hswf Hnse Hs Hmin) as [A1 A2].
+  split; [exact A1|]. split; [|split; [exact A2|split]].
+  - apply (QI_msn N (TrapNodes N) (prim_closed_trap_TrapNodes N) d s all_min); [split; assumption|exact Hs|].
+    intros m Hin. apply min_trap_trap. apply Hmin. exact Hin.
+  - apply (make_skip_node_ES N d s all_min); assumption.
+  - apply make_skip_node_LeafOK; assumption.
+Qed.
+
+Section MinLoopInv.
+  Variable N : net.
+  Variable cfg : config.
+  Variable S : space.
+  Variable all_min : list space.
+  Hypothesis Hmm : 1 <= max_motifs cfg.
+  (* the tape: exactly the minimal trap spaces inside the space S of the start node *)
+  Hypothesis Hall : forall m, In m all_min <-> min_trap N m /\ subspace m S = true.
+
+  (* every node on the DFS stack lies inside the start space *)
+  Definition stack_sub (d : sd) (stack : list (nat * option (list nat))) : Prop :=
+    forall x o, In (x, o) stack -> subspace (n_space (get d x)) S = true.
+
+  Lemma stack_sub_extends : forall d d' stack, extends d d' -> stack_inv d stack ->
+    stack_sub d stack -> stack_sub d' stack.
+  Proof.
+    intros d d' stack He Hst Hsub x o Hin. destruct (Hst x o Hin) as [Hx _].
+    rewrite (extends_space d d' x He Hx). apply (Hsub x o Hin).
+  Qed.
+
+  Lemma edge_sub : forall d x s, EdgeStrict d -> has_edge d x s = true ->
+    subspace (n_space (get d s)) (n_space (get d x)) = true.
+  Proof.
+    intros d x s Hes He. apply has_edge_true in He. destruct He as (e & Hin & Hs & Hd).
+    destruct (Hes e Hin) as [Hsub _]. rewrite Hs, Hd in Hsub. exact Hsub.
+  Qed.
+
+  Lemma M_min_inner : forall remaining skip seen x succ d ns,
+    QM N d -> x < size d -> ns = n_space (get d x) -> subspace ns S = true ->
+    rem_inv all_min d remaining -> (forall s, In s succ -> has_edge d x s = true) ->
+    QM N (fst (min_inner N d seen remaining all_min ns skip succ)).
+  Proof.
+    intros remaining skip seen x.
+    induction succ as [|s r IH]; intros d ns Hq Hx Hns HnsS Hrem Hv; simpl; [exact Hq|].
+    assert (Hr : forall s0, In s0 r -> has_edge d x s0 = true)
+      by (intros s0 Hin; apply Hv; right; exact Hin).
+    destruct (mem_nat s seen); [apply IH; assumption|].
+    destruct (negb (existsb (fun m => subspace m ns) remaining)) eqn:Eex; [|exact Hq].
+    destruct skip eqn:Esk; [|apply IH; assumption].
+    pose proof (make_skip_node_extends N d s all_min) as He.
+    assert (Hed : has_edge d x s = true) by (apply Hv; left; reflexivity).
+    assert (Hnone : forall m, In m remaining -> subspace m (n_space (get d x)) = false).
+    { intros m Hin. apply negb_true_iff in Eex.
+      destruct (subspace m (n_space (get d x))) eqn:Es; [|reflexivity].
+      assert (Hex : existsb (fun m0 => subspace m0 ns) remaining = true).
+      { apply existsb_exists. exists m. split; [exact Hin|]. rewrite Hns. exact Es. }
+      congruence. }
+    destruct Hq as (Hswf & Htn & Hnse & Hes & Hl).
+    destruct (has_edge_valid N d x s Hswf Hed) as [_ Hs].
+    pose proof (edge_sub d x s Hes Hed) as Hsx.
+    apply IH.
+    - apply QM_msn; [exact (conj Hswf (conj Htn (conj Hnse (conj Hes Hl))))|exact Hs| | |].
+      + intros m Hin. apply Hall. exact Hin.
+      + intros Hex Hin. destruct (Hrem _ Hin) as [Hrm|(j & Hj & Hsp & Hje)].
+        * rewrite (Hnone _ Hrm) in Hsx. discriminate Hsx.
+        * apply (spaces_inj N d j s Hswf Hj Hs) in Hsp. subst j. congruence.
+      + intros _. destruct (min_trap_exists N _ (TrapNodes_get N d s Htn Hs)) as (M & HM & Hsub).
+        exists M. split; [|exact Hsub]. apply Hall. split; [exact HM|].
+        eapply subspace_trans; [exact Hsub|]. eapply subspace_trans; [exact Hsx|].
+        rewrite <- Hns. exact HnsS.
+    - eapply extends_lt; [exact He|exact Hx].
+    - rewrite (extends_space d _ x He Hx). exact Hns.
+    - exact HnsS.
+    - eapply rem_inv_extends; [exact He|exact Hrem].
+    - intros s0 Hin. eapply has_edge_extends; [exact He|apply Hr; exact Hin].
+  Qed.
+
+  Lemma M_min_loop : forall sl skip fuel d seen remaining stack,
+    QM N d -> stack_inv d stack -> stack_sub d stack -> rem_inv all_min d remaining ->
+    QM N (fst (min_loop fuel N cfg sl skip all_min d seen remaining stack)).
+  Proof.
+    intros sl skip fuel.
+    induction fuel as [|f IH]; intros d seen remaining stack Hq Hst Hsb Hrem; simpl; [exact Hq|].
+    destruct stack as [|[x osucc] stack'].
+    { destruct (Nat.eqb (length remaining) 0); exact Hq. }
+    assert (Hst' : stack_inv d stack').
+    { intros x0 o0 Hin. apply Hst. right. exact Hin. }
+    assert (Hsb' : stack_sub d stack').
+    { intros x0 o0 Hin. apply (Hsb x0 o0). right. exact Hin. }
+    destruct (Hst x osucc (or_introl eq_refl)) as [Hx Hxl].
+    pose proof (Hsb x osucc (or_introl eq_refl)) as HxS.
+    assert (Htail : forall d1 succ, QM N d1 -> extends d d1 ->
+              (forall s, In s succ -> has_edge d1 x s = true) ->
+              QM N (fst (let '(d2, succ2) :=
+                        min_inner N d1 seen remaining all_min (n_space (get d1 x)) skip succ in
+                      match succ2 with
+                      | [] =>
+                          if is_minimal d2 x
+                          then match remove_space (n_space (get d2 x)) remaining with
+                               | Some rem' => min_loop f N cfg sl skip all_min d2 seen rem' stack'
+                               | None => (d2, RRaised ErrAssert)
+                               end
+                          else min_loop f N cfg sl skip all_min d2 seen remaining stack'
+                      | s :: rest =>
+                          min_loop f N cfg sl skip all_min d2 (s :: seen) remaining
+                                   ((s, None) :: (x, Some rest) :: stack')
+                      end))).
+    { intros d1 succ Hq1 He1 Hv1.
+      assert (Hx1 : x < size d1) by (eapply extends_lt; eauto).
+      assert (Hrem1 : rem_inv all_min d1 remaining) by (eapply rem_inv_extends; eauto).
+      assert (HxS1 : subspace (n_space (get d1 x)) S = true).
+      { rewrite (extends_space d d1 x He1 Hx). exact HxS. }
+      pose proof (M_min_inner remaining skip seen x succ d1 (n_space (get d1 x))
+                    Hq1 Hx1 eq_refl HxS1 Hrem1 Hv1) as Hq2.
+      pose proof (min_inner_extends N all_min remaining (n_space (get d1 x)) skip seen succ d1)
+        as He2.
+      pose proof (min_inner_incl N all_min remaining (n_space (get d1 x)) skip seen succ d1)
+        as Hi2.
+      destruct (min_inner N d1 seen remaining all_min (n_space (get d1 x)) skip succ)
+        as [d2 succ2].
+      simpl in Hq2, He2, Hi2.
+      assert (He02 : extends d d2) by (eapply extends_trans; eassumption).
+      assert (Hst2 : stack_inv d2 stack') by (eapply stack_inv_extends; eassumption).
+      assert (Hsb2 : stack_sub d2 stack') by (eapply stack_sub_extends; eassumption).
+      assert (Hrem2 : rem_inv all_min d2 remaining) by (eapply rem_inv_extends; eassumption).
+      assert (Hx2 : x < size d2) by (eapply extends_lt; eauto).
+      assert (HxS2 : subspace (n_space (get d2 x)) S = true).
+      { rewrite (extends_space d d2 x He02 Hx). exact HxS. }
+      destruct succ2 as [|s rest].
+      - destruct (is_minimal d2 x) eqn:Emin; [|apply IH; assumption].
+        destruct (remove_space (n_space (get d2 x)) remaining) as [rem'|] eqn:Erem;
+          [|exact Hq2].
+        apply IH; [exact Hq2|exact Hst2|exact Hsb2|].
+        intros m Hin. destruct (Hrem2 m Hin) as [Hm|Hw]; [|right; exact Hw].
+        destruct (eqb_space m (n_space (get d2 x))) eqn:Eeq.
+        + right. apply eqb_space_spec in Eeq. exists x. split; [exact Hx2|]. split; [auto|].
+          apply is_minimal_iff in Emin. apply Emin.
+        + left. eapply remove_space_keeps; [exact Erem|exact Hm|].
+          intro Heq. subst m.
+          rewrite (proj2 (eqb_space_spec _ _) eq_refl) in Eeq. discriminate Eeq.
+      - assert (Hs2 : forall s0, In s0 (s :: rest) -> has_edge d2 x s0 = true).
+        { intros s0 Hin. eapply has_edge_extends; [exact He2|]. apply Hv1. apply Hi2. exact Hin. }
+        apply IH; [exact Hq2| | |exact Hrem2].
+        + intros x0 o0 [Heq|[Heq|Hin]].
+          * injection Heq as Hxx Hoo. subst x0 o0. split.
+            -- apply (has_edge_valid N d2 x s (QM_swf N d2 Hq2)). apply Hs2. left. reflexivity.
+            -- intros l s0 Hl. discriminate Hl.
+          * injection Heq as Hxx Hoo. subst x0 o0. split; [exact Hx2|].
+            intros l s0 Hl Hs0. injection Hl as Hl. subst l. apply Hs2. right. exact Hs0.
+          * apply Hst2. exact Hin.
+        + intros x0 o0 [Heq|[Heq|Hin]].
+          * injection Heq as Hxx Hoo. subst x0 o0.
+            eapply subspace_trans; [|exact HxS2].
+            apply edge_sub; [apply Hq2|]. apply Hs2. left. reflexivity.
+          * injection Heq as Hxx Hoo. subst x0 o0. exact HxS2.
+          * apply (Hsb2 x0 o0). exact Hin. }
+    destruct osucc as [l|]; simpl.
+    - apply Htail; [exact Hq|apply extends_refl|].
+      intros s Hs. eapply Hxl; [reflexivity|exact Hs].
+    - destruct (over_limit sl d && negb (n_exp (get d x))); [simpl; exact Hq|].
+      assert (Hq1 : QM N (fst (fst (node_successors N cfg d x)))).
+      { rewrite node_successors_fst. apply QM_expand; assumption. }
+      pose proof (node_successors_extends N cfg d x) as He1.
+      pose proof (node_successors_succ N cfg d x) as Hs1.
+      destruct (node_successors N cfg d x) as [[d1 r] succ]. simpl in Hq1, He1, Hs1.
+      destruct r; simpl; try exact Hq1.
+      apply Htail; [exact Hq1|exact He1|].
+      intros s Hs. apply sort_nat_In in Hs. apply successors_has_edge. apply Hs1. exact Hs.
+  Qed.
+End MinLoopInv.
+
+Lemma expand_min_QM : forall fuel N cfg d start sl skip tape, 1 <= max_motifs cfg ->
+  QM N d -> valid_start d start = true ->
+  QM N (fst (expand_min fuel N cfg d start sl skip tape)).
+Proof.
+  intros fuel N cfg d start sl skip tape Hmm Hq Hv. unfold expand_min.
+  pose proof (QM_swf N d Hq) as Hswf.
+  assert (Hs : match start with Some s => s | None => 0 end < size d).
+  { destruct start as [s|]; simpl in Hv |- *; [apply Nat.ltb_lt; exact Hv|apply (swf_size N d Hswf)]. }
+  set (s0 := match start with Some s => s | None => 0 end) in *.
+  destruct (negb (perm_of tape (min_traps_b N (n_space (get d s0))))) eqn:Ep; [exact Hq|].
+  apply negb_false_iff in Ep.
+  assert (HS : length (n_space (get d s0)) = nvars N).
+  { apply (swf_len N d Hswf). apply get_In. exact Hs. }
+  apply (M_min_loop N cfg (n_space (get d s0)) tape Hmm).
+  - intro m. rewrite <- (min_traps_b_spec N _ m HS). split; intro Hin.
+    + eapply perm_of_In; eassumption.
+    + eapply perm_of_In_rev; eassumption.
+  - exact Hq.
+  - intros x o [Heq|[]]. injection Heq as Hx Ho. subst x o. split; [exact Hs|].
+    intros l s1 Hl. discriminate Hl.
+  - intros x o [Heq|[]]. injection Heq as Hx Ho. subst x o. apply subspace_refl.
+  - intros m Hin. left. exact Hin.
+Qed.
+
+(* all operations *)
+Definition QS (N : net) (d : sd) : Prop :=
+  QM N d /\ n_space (get d 0) = percolate_b N (top_space (nvars N)).
+
+Lemma QM_upd_neutral : forall N d i f, flag_setter f -> (forall x, n_exp (f x) = n_exp x) ->
+  QM N d -> QM N (upd_node d i f).
+Proof.
+  intros N d i f Hf Hex (Hswf & Htn & Hnse & Hes & Hl).
+  split; [apply upd_flag_SWF; assumption|].
+  split; [apply TrapNodes_spaces; rewrite spaces_upd_flag by exact Hf;
+          apply TrapNodes_spaces; exact Htn|].
+  split; [apply NoStubEdges_upd; assumption|].
+  split; [apply EdgeStrict_upd; assumption|].
+  apply LeafOK_upd_neutral; assumption.
+Qed.
+
+Lemma QM_reclaim : forall N d, QM N d -> QM N (reclaim d).
+Proof.
+  intros N d (Hswf & Htn & Hnse & Hes & Hl).
+  split; [apply reclaim_SWF; exact Hswf|].
+  split; [apply TrapNodes_spaces; rewrite spaces_reclaim; apply TrapNodes_spaces; exact Htn|].
+  split.
+  { intros e Hin. simpl in Hin. destruct (reclaim_extends d) as (_ & _ & K & _).
+    apply K; [apply (swf_edges N d Hswf e Hin)|apply Hnse; exact Hin]. }
+  split; [apply (EdgeStrict_same_shape d); [apply spaces_reclaim|reflexivity|exact Hes]|].
+  apply LeafOK_reclaim. exact Hl.
+Qed.
+
+Lemma QM_skip_to_minimal : forall N d i tape, QM N d -> i < size d ->
+  QM N (fst (skip_to_minimal_t N d i tape)).
+Proof.
+  intros N d i tape (Hswf & Htn & Hnse & Hes & Hl) Hi.
+  destruct (skip_to_minimal_NSE N d i tape Hswf Hnse Hi) as [A1 A2].
+  split; [exact A1|]. split; [|split; [exact A2|split]].
+  - apply (TT_skip_to_minimal N (fun d0 => SWF N d0 /\ TrapNodes N d0)
+             (QI_swf N (TrapNodes N))
+             (QI_child N (TrapNodes N) (prim_closed_trap_TrapNodes N))
+             (QI_upd N (TrapNodes N) (prim_closed_trap_TrapNodes N))); [split; assumption|exact Hi].
+  - apply (skip_to_minimal_ES N d i tape); assumption.
+  - apply skip_to_minimal_LeafOK; assumption.
+Qed.
+
+Lemma QM_skip_remaining : forall N d tape, QM N d ->
+  n_space (get d 0) = percolate_b N (top_space (nvars N)) ->
+  QM N (fst (skip_remaining N d tape)).
+Proof.
+  intros N d tape (Hswf & Htn & Hnse & Hes & Hl) Hroot.
+  destruct (skip_remaining_QL N d tape) as (A1 & A2 & A3 & A4);
+    [exact (conj Hswf (conj Htn (conj Hnse Hl)))|exact Hroot|].
+  split; [exact A1|]. split; [exact A2|]. split; [exact A3|]. split; [|exact A4].
+  apply (skip_remaining_ES N d tape); assumption.
+Qed.
+
+Lemma QS_step : forall fuel N cfg d o, 1 <= max_motifs cfg -> QS N d ->
+  QS N (fst (step fuel N cfg d o)).
+Proof.
+  intros fuel N cfg d o Hmm [Hq Hroot].
+  split; [|rewrite (root_stable fuel N cfg d o (QM_swf N d Hq)); exact Hroot].
+  assert (Hgen : forall o0, op_ok N (QS N) o0 -> QM N (fst (step fuel N cfg d o0))).
+  { intros o0 Hok.
+    apply (B_step_op N cfg (QS N)); [| | | |exact Hok|split; assumption].
+    - intros d0 [H0 _]. apply QM_swf. exact H0.
+    - intros d0 i [H0 R0]. split; [apply QM_expand; assumption|].
+      pose proof (QM_swf N d0 H0) as Hs0.
+      rewrite (extends_space d0 _ 0 (expand_one_extends N cfg d0 i) (swf_size N d0 Hs0)). exact R0.
+    - intros d0 i f [H0 R0] _ Hf. split.
+      + apply QM_upd_neutral; [apply cache_setter_flag; exact Hf| |exact H0].
+        intro x. apply cache_setter_exp. exact Hf.
+      + rewrite n_space_upd_flag by (apply cache_setter_flag; exact Hf). exact R0.
+    - intros d0 [H0 R0]. split; [apply QM_reclaim; exact H0|].
+      rewrite get_reclaim. destruct (n_seeds (get d0 0)); exact R0. }
+  destruct o; try (apply Hgen; exact I).
+  - (* OMin *)
+    unfold step. destruct (valid_start d start) eqn:Ev; [|exact Hq].
+    apply expand_min_QM; assumption.
+  - (* OSkipToMin *)
+    apply Hgen. intros d0 [H0 R0] Hi. split; [apply QM_skip_to_minimal; assumption|].
+    pose proof (QM_swf N d0 H0) as Hs0.
+    pose proof (root_stable 0 N cfg d0 (OSkipToMin i tape) Hs0) as Hr. unfold step in Hr.
+    rewrite (proj2 (Nat.ltb_lt _ _) Hi) in Hr. rewrite Hr. exact R0.
+  - (* OSkipRemaining *)
+    apply Hgen. intros d0 [H0 R0]. split; [apply QM_skip_remaining; assumption|].
+    pose proof (QM_swf N d0 H0) as Hs0.
+    pose proof (root_stable 0 N cfg d0 (OSkipRemaining tape) Hs0) as Hr. unfold step in Hr.
+    rewrite Hr. exact R0.
+Qed.
+
+(* ================================================================== *)
+(* 1'. soundness of leaves along steps                                 *)
+(* ================================================================== *)
+
+(* The statement without `EdgeStrict d` is false (see step_LeafOK_needs_EdgeStrict
+   below): a skip node may only be trusted to receive a successor when its space lies
+   inside the space of the start node, which is what EdgeStrict provides along the DFS.
+   EdgeStrict is itself an invariant of every reachable diagram (init_EdgeStrict,
+   step_EdgeStrict). *)
+Theorem step_LeafOK_weak : forall fuel N cfg d o, 1 <= max_motifs cfg ->
+  SWF N d -> TrapNodes N d -> NoStubEdges d -> EdgeStrict d -> Faithful N d ->
+  n_space (get d 0) = percolate_b N (top_space (nvars N)) ->
+  LeafOK N d -> LeafOK N (fst (step fuel N cfg d o)).
+Proof.
+  intros fuel N cfg d o Hmm Hswf Htn Hnse Hes _ Hroot Hl.
+  assert (Hq : QS N d) by (split; [exact (conj Hswf (conj Htn (conj Hnse (conj Hes Hl))))|exact Hroot]).
+  destruct (QS_step fuel N cfg d o Hmm Hq) as [(_ & _ & _ & _ & H) _]. exact H.
+Qed.
+
+Lemma init_LeafOK : forall N, LeafOK N (init N).
+Proof.
+  intros N i Hi Hmin. exfalso. apply is_minimal_iff in Hmin. destruct Hmin as [_ He].
+  unfold init in Hi, He. rewrite ensure_node_unfold in Hi, He.
+  unfold find_node, find_key in Hi, He. simpl in Hi, He.
+  unfold size in Hi. simpl in Hi. assert (i = 0) by lia. subst i.
+  unfold get in He. simpl in He. discriminate He.
+Qed.
+
+Theorem expand_min_exact : forall fuel N cfg d' skip tape, 1 <= max_motifs cfg ->
+  expand_min fuel N cfg (init N) None None skip tape = (d', RBool true) ->
+  LeafOK N d' /\ MinFound N d'.
+Proof.
+  intros fuel N cfg d' skip tape Hmm H. split.
+  - assert (Hd' : d' = fst (step fuel N cfg (init N) (OMin None None skip tape))).
+    { rewrite step_OMin_root, H. reflexivity. }
+    rewrite Hd'. apply step_LeafOK_weak; try assumption.
+    + apply init_SWF.
+    + apply init_TrapNodes.
+    + apply init_NoStubEdges.
+    + apply init_EdgeStrict.
+    + apply init_Faithful.
+    + apply init_root.
+    + apply init_LeafOK.
+  - apply (expand_min_complete fuel N cfg (init N) d' skip tape); try assumption.
+    + apply init_SWF.
+    + apply init_TrapNodes.
+    + apply init_NoStubEdges.
+    + apply init_EdgeStrict.
+    + apply init_Faithful.
+    + apply init_root.
+Qed.
+
+(* ================================================================== *)
+(* 3. completion by skipping                                           *)
+(* ================================================================== *)
+
+Lemma skip1_extends : forall d i traps,
+  extends d (upd_node (mark_expanded (skip_edges (upd_node d i clear_attr) i traps) i) i
+                      (fun y => set_skip y true)).
+Proof.
+  intros d i traps.
+  apply extends_trans with (d2 := upd_node d i clear_attr);
+    [apply upd_flag_extends; constructor|].
+  eapply extends_trans; [apply skip_edges_extends|].
+  eapply extends_trans; [apply mark_expanded_extends|].
+  apply upd_flag_extends. constructor.
+Qed.
+
+Lemma skip1_size : forall d i traps,
+  size (upd_node (mark_expanded (skip_edges (upd_node d i clear_attr) i traps) i) i
+                 (fun y => set_skip y true)) = size d.
+Proof.
+  intros d i traps. rewrite size_upd_node, size_mark_expanded.
+  rewrite <- !length_spaces, spaces_skip_edges, spaces_upd_flag by constructor. reflexivity.
+Qed.
+
+Lemma skip_all_extends : forall traps ids d count, extends d (fst (skip_all d ids traps count)).
+Proof.
+  intro traps. induction ids as [|i r IH]; intros d count; simpl; [apply extends_refl|].
+  destruct (n_exp (get d i)); [apply IH|].
+  eapply extends_trans; [apply skip1_extends|apply IH].
+Qed.
+
+Lemma skip_all_size : forall traps ids d count, size (fst (skip_all d ids traps count)) = size d.
+Proof.
+  intro traps. induction ids as [|i r IH]; intros d count; simpl; [reflexivity|].
+  destruct (n_exp (get d i)); [apply IH|]. rewrite IH. apply skip1_size.
+Qed.
+
+Lemma skip_all_exp : forall traps ids d count i, i < size d ->
+  (In i ids \/ n_exp (get d i) = true) ->
+  n_exp (get (fst (skip_all d ids traps count)) i) = true.
+Proof.
+  intro traps. induction ids as [|i0 r IH]; intros d count i Hi H; simpl.
+  - destruct H as [[]|H]. exact H.
+  - destruct (n_exp (get d i0)) eqn:E0.
+    + apply IH; [exact Hi|]. destruct H as [[Heq|Hin]|H]; [subst i0; right; exact E0|left; exact Hin|right; exact H].
+    + pose proof (skip1_extends d i0 traps) as He. pose proof (skip1_size d i0 traps) as Hsz.
+      apply IH; [rewrite Hsz; exact Hi|].
+      destruct H as [[Heq|Hin]|H].
+      * subst i0. right. rewrite get_upd_node_eq by (rewrite size_mark_expanded;
+          rewrite <- !length_spaces, spaces_skip_edges, spaces_upd_flag by constructor;
+          rewrite length_spaces; exact Hi).
+        simpl. unfold mark_expanded. rewrite get_upd_node_eq; [reflexivity|].
+        rewrite <- !length_spaces, spaces_skip_edges, spaces_upd_flag by constructor.
+        rewrite length_spaces. exact Hi.
+      * left. exact Hin.
+      * right. destruct He as (_ & _ & H3 & _). apply H3; assumption.
+Qed.
+
+Lemma SWF_rootmark : forall N d m, SWF N d -> min_trap N m ->
+  SWF N (mark_expanded (fst (ensure_node N d None m)) (snd (ensure_node N d None m))).
+Proof.
+  intros N d m Hswf Hmt. destruct (ensure_root_spec N d m Hswf (min_trap_length N m Hmt)) as (S1 & _).
+  unfold mark_expanded. apply upd_flag_SWF; [constructor|exact S1].
+Qed.
+
+(* EdgeStrict d is needed: see skip_remaining_needs_EdgeStrict.  NoStubEdges d is
+   kept from the original statement but not used. *)
+Theorem skip_remaining_complete : forall N d d' tape k, SWF N d -> TrapNodes N d ->
+  NoStubEdges d -> EdgeStrict d ->
+  n_space (get d 0) = percolate_b N (top_space (nvars N)) ->
+  skip_remaining N d tape = (d', RNat k) -> MinFound N d' /\ AllExpanded d'.
+Proof.
+  intros N d d' tape k Hswf Htn _ Hes Hroot H.
+  assert (Hd' : d' = fst (skip_remaining N d tape)) by (rewrite H; reflexivity).
+  assert (Hswf' : SWF N d').
+  { rewrite Hd'. apply (step_SWF 0 N {| max_motifs := 1 |} d (OSkipRemaining tape)). exact Hswf. }
+  assert (Htn' : TrapNodes N d').
+  { rewrite Hd'. apply (step_TrapNodes 0 N {| max_motifs := 1 |} d (OSkipRemaining tape));
+      assumption. }
+  assert (Hes' : EdgeStrict d') by (rewrite Hd'; apply (skip_remaining_ES N d tape); assumption).
+  unfold skip_remaining in H.
+  destruct (negb (perm_of tape (min_traps_b N (n_space (get d 0))))) eqn:Ep; [discriminate H|].
+  assert (Hmin : forall m, In m tape -> min_trap N m).
+  { intros m Hin. eapply (tape_min_traps N (n_space (get d 0)) tape); [|exact Ep|exact Hin].
+    apply (swf_len N d Hswf). apply get_In. apply (swf_size N d Hswf). }
+  assert (Hnil1 : traps_ok N d []) by (intros c m []).
+  assert (Hnil2 : traps_exp d []) by (intros c m []).
+  destruct (S_ensure_roots N (SWF N) (fun d0 H0 => H0) (SWF_rootmark N) tape d [] Hswf Hmin
+              Hnil1 Hnil2) as (Hq1 & Hok1 & Hex1).
+  pose proof (ensure_roots_complete N tape d []) as Hcomp.
+  destruct (ensure_roots N d tape []) as [d1 traps]. simpl in Hq1, Hok1, Hex1, Hcomp.
+  pose proof (skip_all_extends traps (seq 0 (size d1)) d1 0) as He2.
+  pose proof (skip_all_size traps (seq 0 (size d1)) d1 0) as Hsz2.
+  pose proof (skip_all_exp traps (seq 0 (size d1)) d1 0) as Hex2.
+  destruct (skip_all d1 (seq 0 (size d1)) traps 0) as [d2 k2]. simpl in He2, Hsz2, Hex2.
+  injection H as Hd Hk. subst d2 k2.
+  assert (Hall : AllExpanded d').
+  { intros i Hi. rewrite Hsz2 in Hi. apply Hex2; [exact Hi|]. left. apply in_seq. lia. }
+  split; [|exact Hall].
+  apply MinFound_of_nodes; try assumption.
+  intros M HM. apply negb_false_iff in Ep.
+  destruct (Hcomp M) as [c Hc]; [left; exact (root_tape_all N d tape Hswf Hroot Ep M HM)|].
+  destruct (Hok1 c M Hc) as (Hc1 & _ & Hpm).
+  exists c. split; [eapply extends_lt; eassumption|]. split.
+  - rewrite (extends_space d1 d' c He2 Hc1), <- Hpm. apply min_trap_percolate. exact HM.
+  - apply Hall. eapply extends_lt; eassumption.
+Qed.
+
+(* soundness as well: after skip_remaining the leaves are exactly the minimal traps *)
+Theorem skip_remaining_exact : forall N d d' tape k, SWF N d -> TrapNodes N d ->
+  NoStubEdges d -> EdgeStrict d -> LeafOK N d ->
+  n_space (get d 0) = percolate_b N (top_space (nvars N)) ->
+  skip_remaining N d tape = (d', RNat k) -> LeafOK N d' /\ MinFound N d' /\ AllExpanded d'.
+Proof.
+  intros N d d' tape k Hswf Htn Hnse Hes Hl Hroot H. split.
+  - assert (Hd' : d' = fst (skip_remaining N d tape)) by (rewrite H; reflexivity).
+    rewrite Hd'. apply (skip_remaining_QL N d tape); [|exact Hroot].
+    exact (conj Hswf (conj Htn (conj Hnse Hl))).
+  - eapply skip_remaining_complete; eassumption.
+Qed.
+
+(* ================================================================== *)
+(* 4'. along runs: every history, skip operations included             *)
+(* ================================================================== *)
+
+Lemma init_QS : forall N, QS N (init N).
+Proof.
+  intro N. split; [|apply init_root].
+  split; [apply init_SWF|]. split; [apply init_TrapNodes|]. split; [apply init_NoStubEdges|].
+  split; [apply init_EdgeStrict|apply init_LeafOK].
+Qed.
+
+Lemma run_QS_from : forall fuel N cfg h d0 d r, 1 <= max_motifs cfg ->
+  QS N d0 -> In (d, r) (run fuel N cfg d0 h) -> QS N d.
+Proof.
+  intros fuel N cfg h. induction h as [|o h IH]; intros d0 d r Hmm H0 Hin; simpl in Hin;
+    [contradiction|].
+  pose proof (QS_step fuel N cfg d0 o Hmm H0) as H1.
+  destruct (step fuel N cfg d0 o) as [d1 x]. simpl in H1.
+  destruct Hin as [Heq|Hin].
+  - injection Heq as Hd Hr. subst d. exact H1.
+  - eapply IH; eauto.
+Qed.
+
+(* in every diagram reachable from init, by any history, the expanded nodes without
+   successors are minimal trap spaces *)
+Theorem run_LeafOK : forall fuel N cfg h d r, 1 <= max_motifs cfg ->
+  In (d, r) (run fuel N cfg (init N) h) -> LeafOK N d.
+Proof.
+  intros fuel N cfg h d r Hmm Hin.
+  destruct (run_QS_from fuel N cfg h (init N) d r Hmm (init_QS N) Hin) as [(_ & _ & _ & _ & H) _].
+  exact H.
+Qed.
+
+(* ================================================================== *)
+(* 5. why EdgeStrict is needed (diagrams that no run can produce)      *)
+(* ================================================================== *)
+
+Definition cx_mk (X : space) (e k : bool) : node :=
+  {| n_space := X; n_depth := 0; n_exp := e; n_skip := k; n_parent := None;
+     n_cands := None; n_seeds := None; n_sets := None |}.
+
+(* three source variables; node 1 (x0 = 0) is a skip node with an edge to the unrelated
+   stub 2 (x0 = 1).  expand_min from node 1 with skip = true descends into node 2,
+   expands it, and turns its four successors into skip nodes; none of the minimal
+   traps of the tape (all inside x0 = 0) lies inside them, so they end up expanded
+   without successors although they are not minimal trap spaces. *)
+Definition cxA_net : net :=
+  [fun s => nth 0 s false; fun s => nth 1 s false; fun s => nth 2 s false].
+Definition cxA_sd : sd :=
+  {| sd_nodes := [cx_mk [None; None; None] false false;
+                  cx_mk [Some false; None; None] true true;
+                  cx_mk [Some true; None; None] false false];
+     sd_edges := [{| e_src := 1; e_dst := 2; e_motifs := [[Some true; None; None]] |}] |}.
+Definition cxA_cfg : config := {| max_motifs := 5 |}.
+Definition cxA_op : op := OMin (Some 1) None true (min_traps_b cxA_net [Some false; None; None]).
+
+Lemma step_LeafOK_needs_EdgeStrict :
+  1 <= max_motifs cxA_cfg /\ SWF cxA_net cxA_sd /\ TrapNodes cxA_net cxA_sd /\
+  NoStubEdges cxA_sd /\ Faithful cxA_net cxA_sd /\
+  n_space (get cxA_sd 0) = percolate_b cxA_net (top_space (nvars cxA_net)) /\
+  LeafOK cxA_net cxA_sd /\
+  ~ EdgeStrict cxA_sd /\
+  ~ LeafOK cxA_net (fst (step 20 cxA_net cxA_cfg cxA_sd cxA_op)).
+Proof.
+  split; [vm_compute; lia|].
+  split.
+  { constructor.
+    - unfold size. simpl. lia.
+    - intros x [H|[H|[H|[]]]]; subst x; reflexivity.
+    - unfold spaces. simpl. repeat constructor; simpl; intuition discriminate.
+    - intros e [H|[]]. subst e. unfold size. simpl. repeat split; try lia. discriminate.
+    - simpl. repeat constructor. intros [].
+    - intros x [H|[H|[H|[]]]]; subst x; vm_compute; reflexivity.
+    - intros e m [H|[]] Hm. subst e. simpl in Hm. destruct Hm as [Hm|[]]. subst m.
+      split; vm_compute; reflexivity. }
+  split.
+  { intros x [H|[H|[H|[]]]]; subst x; apply is_trap_b_spec; vm_compute; reflexivity. }
+  split.
+  { intros e [H|[]]. subst e. reflexivity. }
+  split.
+  { intros i Hi. unfold size in Hi. simpl in Hi.
+    destruct i as [|[|[|i]]]; try lia; intros H1 H2; vm_compute in H1, H2; discriminate. }
+  split; [vm_compute; reflexivity|].
+  split.
+  { intros i Hi. unfold size in Hi. simpl in Hi.
+    destruct i as [|[|[|i]]]; try lia; intro H; vm_compute in H; discriminate H. }
+  split.
+  { intro H. destruct (H _ (or_introl eq_refl)) as [Hsub _]. vm_compute in Hsub.
+    discriminate Hsub. }
+  intro H. assert (Hm : min_trap cxA_net [Some true; Some false; None]).
+  { apply (H 3); vm_compute; [lia|reflexivity]. }
+  assert (Hin : In [Some true; Some false; None]
+                   (min_traps_b cxA_net [Some true; Some false; None])).
+  { apply min_traps_b_spec; [reflexivity|]. split; [exact Hm|reflexivity]. }
+  apply mem_space_spec in Hin. vm_compute in Hin. discriminate Hin.
+Qed.
+
+(* one source variable; node 1 (x0 = 0) is marked expanded and carries an edge to the
+   unrelated node 2 (x0 = 1).  skip_remaining completes the diagram but node 1 keeps
+   its successor, so the minimal trap space x0 = 0 is not a leaf. *)
+Definition cxB_net : net := [fun s => nth 0 s false].
+Definition cxB_sd : sd :=
+  {| sd_nodes := [cx_mk [None] false false; cx_mk [Some false] true true;
+                  cx_mk [Some true] false false];
+     sd_edges := [{| e_src := 1; e_dst := 2; e_motifs := [[Some true]] |}] |}.
+Definition cxB_tape : list space := [[Some false]; [Some true]].
+
+Lemma skip_remaining_needs_EdgeStrict :
+  SWF cxB_net cxB_sd /\ TrapNodes cxB_net cxB_sd /\ NoStubEdges cxB_sd /\
+  Faithful cxB_net cxB_sd /\ LeafOK cxB_net cxB_sd /\
+  n_space (get cxB_sd 0) = percolate_b cxB_net (top_space (nvars cxB_net)) /\
+  ~ EdgeStrict cxB_sd /\
+  snd (skip_remaining cxB_net cxB_sd cxB_tape) = RNat 1 /\
+  ~ MinFound cxB_net (fst (skip_remaining cxB_net cxB_sd cxB_tape)).
+Proof.
+  split.
+  { constructor.
+    - unfold size. simpl. lia.
+    - intros x [H|[H|[H|[]]]]; subst x; reflexivity.
+    - unfold spaces. simpl. repeat constructor; simpl; intuition discriminate.
+    - intros e [H|[]]. subst e. unfold size. simpl. repeat split; try lia. discriminate.
+    - simpl. repeat constructor. intros [].
+    - intros x [H|[H|[H|[]]]]; subst x; vm_compute; reflexivity.
+    - intros e m [H|[]] Hm. subst e. simpl in Hm. destruct Hm as [Hm|[]]. subst m.
+      split; vm_compute; reflexivity. }
+  split.
+  { intros x [H|[H|[H|[]]]]; subst x; apply is_trap_b_spec; vm_compute; reflexivity. }
+  split.
+  { intros e [H|[]]. subst e. reflexivity. }
+  split.
+  { intros i Hi. unfold size in Hi. simpl in Hi.
+    destruct i as [|[|[|i]]]; try lia; intros H1 H2; vm_compute in H1, H2; discriminate. }
+  split.
+  { intros i Hi. unfold size in Hi. simpl in Hi.
+    destruct i as [|[|[|i]]]; try lia; intro H; vm_compute in H; discriminate H. }
+  split; [vm_compute; reflexivity|].
+  split.
+  { intro H. destruct (H _ (or_introl eq_refl)) as [Hsub _]. vm_compute in Hsub.
+    discriminate Hsub. }
+  split; [vm_compute; reflexivity|].
+  intro H. assert (Hm : min_trap cxB_net [Some false]).
+  { apply (min_traps_b_spec cxB_net [None] [Some false] eq_refl).
+    apply mem_space_spec. vm_compute. reflexivity. }
+  destruct (H _ Hm) as (i & Hi & Hmin & Hsp). vm_compute in Hi.
+  destruct i as [|[|[|i]]]; try lia; vm_compute in Hmin, Hsp; discriminate.
+Qed.
+
+Print Assumptions expand_min_exact.
+Print Assumptions expand_min_complete.
+Print Assumptions skip_remaining_complete.
+Print Assumptions skip_remaining_exact.
+Print Assumptions step_LeafOK_weak.
+Print Assumptions run_LeafOK.
+Print Assumptions minimal_nodes_unique.
+Print Assumptions step_LeafOK_needs_EdgeStrict.
+Print Assumptions skip_remaining_needs_EdgeStrict.
